@@ -1094,6 +1094,23 @@ func C20(p *Prog, r *Run) {
 			}
 		}
 		alwaysSized := false
+		// lenVsBound: the branch outcome says `len(e.Trials) <op> <bound of the trial loop>` for one of ops
+		lenVsBound := func(cond ssa.Value, outcome bool, ops ...token.Token) bool {
+			x, y, op, ok := CmpFact(cond, outcome)
+			if !ok || !okC {
+				return false
+			}
+			lc, isLen := c19IsBuiltinCall(x, "len")
+			if !isLen || len(lc.Call.Args) != 1 || !isHolderLoad(lc.Call.Args[0]) || CanonTerm(tm.Of(y)) != CanonTerm(bound) {
+				return false
+			}
+			for _, o := range ops {
+				if o == op {
+					return true
+				}
+			}
+			return false
+		}
 		for _, st := range holderStores {
 			v := st.Val
 			for {
@@ -1120,6 +1137,15 @@ func C20(p *Prog, r *Run) {
 			if sized && !outer.Blocks[st.Block()] && st.Block().Dominates(outer.Header) {
 				alwaysSized = true
 			}
+			// ... or it is replaced exactly when it does not have one slot per trial (len(e.Trials) != bound): whatever
+			// the caller passed, the trial loop then runs with a holder of the right length (defect F18)
+			if sized && first {
+				for _, g := range Guards(st.Block()) {
+					if lenVsBound(g.Cond, g.True, token.NEQ, token.LSS) {
+						alwaysSized = true
+					}
+				}
+			}
 		}
 		isHolderStore := func(in ssa.Instruction) bool {
 			for _, st := range holderStores {
@@ -1135,13 +1161,17 @@ func C20(p *Prog, r *Run) {
 				if GuardNilness(g, isHolderLoad) == -1 {
 					return true
 				}
+				// an edge taken only when the holder already has (at least) one slot per trial is not one on which a slot is missing
+				if lenVsBound(g.Cond, g.True, token.EQL, token.GEQ) {
+					return true
+				}
 			}
 			return false
 		}
 		for _, s := range findAll(isTrialStore) {
 			path := FindPath(p, PathQuery{Fn: ex, Target: func(in ssa.Instruction) bool { return in == s }, Avoid: isHolderStore, AvoidEdge: knownNonNil, Explored: &r.PathsExplored})
 			if path != nil {
-				r.Bad("holder.execute.allocates", p.Pos(s.Pos()), "an experiment that comes without a holder reaches the recording store with e.Trials still nil (index out of range after the first trial)", path...)
+				r.Bad("holder.execute.allocates", p.Pos(s.Pos()), "an experiment that comes without a holder (or with one that lacks slots) reaches the recording store with e.Trials as it came (index out of range after a trial was evaluated)", path...)
 			} else {
 				r.OK("holder.execute.allocates", p.Pos(s.Pos()), "an experiment without a holder gets one before the first trial is recorded")
 			}
@@ -1163,6 +1193,15 @@ func C20(p *Prog, r *Run) {
 			}
 		}
 		r.Note("C20.4: %d call(s) of Experiment.Execute in non-test code of the repository", n)
+		// Execute is a public method: whatever holder the caller left in the experiment (none, one of an earlier run with
+		// another NumRuns), the trial loop must find one slot per trial (defect F18)
+		r.Check(alwaysSized, "holder.execute.fits", p.Pos(ex.Pos()), "Execute itself gives the holder one slot per trial: it is sized unconditionally before the trial loop, or replaced exactly when its length differs from the loop bound",
+			"Execute keeps whatever non-nil holder the experiment came with: with a holder shorter than the configured number of trials (an experiment re-used with a larger NumRuns, a hand-made holder) trial k is evaluated completely and then the recording store panics (index out of range) - the trial is not recorded, its finish not notified; with a longer one phantom empty trials follow the executed ones")
+	})
+
+	r.Rule("C20.6", "Execute does not depend on a champion the evaluator is not obliged to provide: every value Execute loads from Generation.Champion is dereferenced only under a test that it is not nil. Otherwise a generation reported solved by an evaluator that sets only the Solved flag makes Execute panic after the generation was notified: the trial is not recorded, its finish is not notified and no error is returned (defect F17)", func() {
+		nL, _ := nilChampionUses(p, r, []*ssa.Function{ex}, "an evaluator that reports a solution by the Solved flag alone (the GenerationEvaluator contract does not demand a champion) makes Execute panic after EpochEvaluated was notified - the trial is not recorded, TrialRunFinished never notified, no error returned")
+		r.Note("C20.6: %d load(s) of Generation.Champion in Execute", nL)
 	})
 }
 
